@@ -457,7 +457,27 @@ def cases(draw):
     tree = _with_list_adds(draw, tree)
     if draw(st.integers(0, 3)) == 0:
         tree = _with_idless_tzinfo(draw, tree)
+    if draw(st.integers(0, 2)) == 0:
+        tree = _with_value_objects(draw, tree)
     return {"provider": draw(st.sampled_from(["zoneinfo", "pytz"])), "tree": tree, "setters": setters}
+
+
+def _with_value_objects(draw, tree):
+    """some text / uri / cal-address / integer values are handed to add() as value objects of the library (or of a subclass of the
+    library's class) that carry their parameters themselves"""
+    t = dict(tree)
+    props = []
+    names = [q[0].upper() for q in tree["p"]]
+    for p in tree["p"]:
+        p = list(p)
+        if names.count(p[0].upper()) == 1 and p[1]["k"] in ("text", "uri", "caladdr", "int") and len(p) <= 3 and p[0].upper() in T.RFC_PROPS and T.RFC_PROPS[p[0].upper()][0] == p[1]["k"] and draw(st.booleans()):
+            while len(p) < 3:
+                p.append(None)
+            p.append({"typed": draw(st.sampled_from(["exact", "sub", "sub"]))})
+        props.append(p)
+    t["p"] = props
+    t["s"] = [_with_value_objects(draw, x) for x in tree["s"]]
+    return t
 
 
 def _with_idless_tzinfo(draw, tree):
